@@ -54,7 +54,7 @@ def wrap(v, bits):
 def go_eq(p, t, a, b):
     hk = L.head_kind(p, t)
     if hk == "base:double":
-        return L.f64_bits(a) == L.f64_bits(b)
+        return a == b        # Go's float64 ==: NaN differs from everything, +0 equals -0
     if hk == "base:binary":
         return bytes(a or b"") == bytes(b or b"")
     return a == b
@@ -729,7 +729,8 @@ def _run_program(ctx, prog, lb, gen_opts, n_values, stats, judge_cases, judge_me
                         if probs:
                             why = "; ".join(probs[:3])
                         elif wcanon(p, t, got) != wcanon(p, t, ew):
-                            why = "fields/values on the wire differ from the declaration (%s)" % _first_diff(p, s, got, ew)
+                            why = "fields/values on the wire differ from the declaration (%s; %s)" % (
+                                _first_diff(p, s, got, ew), _norm_diff(wcanon(p, t, got), wcanon(p, t, ew)))
                         elif [x[0] for x in got[1]] != [x[0] for x in ew[1]]:
                             why = "field order differs from declaration order"
             elif want[0] == "union":
@@ -821,7 +822,11 @@ def _norm_diff(a, b, path=""):
     if type(a) != type(b) or not isinstance(a, tuple):
         return "%s: got %r want %r" % (path, a, b) if a != b else ""
     if len(a) != len(b):
-        return "%s: %d vs %d entries" % (path, len(a), len(b))
+        try:
+            ka, kb = {x[0] for x in a}, {x[0] for x in b}
+            return "%s: %d vs %d entries; only got %r; only wanted %r" % (path, len(a), len(b), sorted(ka - kb)[:5], sorted(kb - ka)[:5])
+        except Exception:
+            return "%s: %d vs %d entries" % (path, len(a), len(b))
     for i, (x, y) in enumerate(zip(a, b)):
         d = _norm_diff(x, y, "%s/%d" % (path, i))
         if d:
@@ -883,7 +888,7 @@ def run(ctx, br):
     ctx.assumptions += [
         "TCompact / TJSON codecs are Apache Thrift's: exercised differentially through a schema-less reader/writer, only TBinary has a Coq specification",
         "set/map order is Go's iteration order: compared up to permutation; map keys on the wire are distinct; strings are valid UTF-8; "
-        "doubles compared by bit pattern (optional double fields with a default never hold NaN or -0)",
+        "doubles compared by bit pattern (all NaNs alike under TJSON); IsSet of an optional double with a default uses Go's ==",
         "a nil slice/map/binary in a required or default field is the same value as an empty one",
     ]
     return {
